@@ -21,7 +21,6 @@ import (
 	"fmt"
 	"hash/crc32"
 	"io"
-	"os"
 	"path/filepath"
 	"strings"
 	"testing"
@@ -216,21 +215,11 @@ func verifC11CheckRestored(eng *Engine, src *verifC11Source) string {
 				return fmt.Sprintf("channel %s: restored checkpoint %+v (%v), want HW %d epoch %d", c.Key, cp, err, hw, c.Epoch)
 			}
 			leo, err := s.LEOWithError()
-			knownRetainedEnd := false
-			if err == nil && leo > hw {
-				// the exported retention-state row carries the source's retained log
-				// end; recorded finding "restore-retained-end-above-cut" (only
-				// tolerated while it is listed in known_findings.json)
-				if rs, rerr := s.LoadRetentionState(); rerr == nil && rs.RetainedMaxSeq == leo &&
-					(kit.KnownFinding("C11", "restore-retained-end-above-cut") || os.Getenv("VERIF_C11_EXPLORE") != "") {
-					knownRetainedEnd = true
-				}
-			}
-			if (err != nil || leo != hw) && !knownRetainedEnd {
+			if err != nil || leo != hw {
 				s.Close()
 				return fmt.Sprintf("channel %s: restored log end %d (%v): nothing may exist above the exported watermark %d", c.Key, leo, err, hw)
 			}
-			if c.Exact && !knownRetainedEnd {
+			if c.Exact {
 				fr, err := s.LoadDurableFrontier(ctx)
 				if err != nil {
 					s.Close()
